@@ -33,8 +33,10 @@ func (zl *Ziplist) Next() []byte {
 	* 2^16-2 entries, this value is set to 2^16-1 and we need to traverse the
 	* entire list to know how many items it holds.*/
 	if zl.length == 65535 {
+		// the byte is either the end marker 0xFF or the first byte of the next
+		// entry's prevlen (0xFE introduces a 5 byte prevlen, it is not a terminator)
 		firstByte := zl.buf.ReadByte()
-		if firstByte != 0xFE {
+		if firstByte != 0xFF {
 			return ReadZiplistEntry2(zl.buf, firstByte)
 		}
 	} else {
